@@ -363,6 +363,9 @@ def run(chk):
             chk.configs.append(cfg)
             sub_ops = W.unsafe_ops(p2)
             chk.extra["unsafe_ops_" + cfg] = len(sub_ops)
+    import witness
+    if chk.tier == "thorough":
+        witness.check(chk, "typelevel", "C16", "C16.witness")
     chk.assume("MaybeUninit/slice/pointer std functions behave as modelled", "aliasing of two Ptr References to one static mut is out of scope (documented caveat)")
     chk.extra["std_models"] = sorted(sim.stats["models_used"])
     return ("Typestate simulation of the four MaybeUninit users over all arities/presence patterns in range, plus a crate-wide inventory of unsafe "
